@@ -577,3 +577,45 @@ impl<Input: InputIndexer> exec::MatchProducer for PikeVMExecutor<'_, Input> {
         None
     }
 }
+
+/// Verification hook: a single anchored match attempt at byte offset `pos`.
+/// \return the end offset and the capture ranges.
+#[cfg(regress_verif)]
+pub(crate) fn verif_attempt(
+    re: &CompiledRegex,
+    text: &str,
+    pos: usize,
+    ascii: bool,
+) -> Option<(usize, Vec<Option<Range<usize>>>)> {
+    fn go<Input: InputIndexer>(
+        re: &CompiledRegex,
+        input: Input,
+        pos: usize,
+    ) -> Option<(usize, Vec<Option<Range<usize>>>)> {
+        let start = input.try_move_right(input.left_end(), pos)?;
+        let mut state = State {
+            pos: start,
+            ip: 0,
+            loop1_iters: 0,
+            loops: vec![LoopData::new(start); re.loops as usize].into(),
+            groups: vec![GroupData::new(); re.groups as usize].into(),
+        };
+        if !MatchAttempter::<Input>::new(re).try_at_pos(input, &mut state, Forward::new()) {
+            return None;
+        }
+        let caps = state
+            .groups
+            .iter()
+            .map(|gd| {
+                gd.as_range()
+                    .map(|r| input.pos_to_offset(r.start)..input.pos_to_offset(r.end))
+            })
+            .collect();
+        Some((input.pos_to_offset(state.pos), caps))
+    }
+    if ascii {
+        go(re, AsciiInput::new(text, re.flags.unicode), pos)
+    } else {
+        go(re, Utf8Input::new(text, re.flags.unicode), pos)
+    }
+}
